@@ -48,12 +48,16 @@ CONTAINER_KINDS = ["seqAny", "seqOf", "seqPos", "setAny", "setOf", "tupleOf", "t
 
 
 class DeclGen:
-    def __init__(self, rng, max_depth=3, p_constraint=0.35, allow=None):
+    def __init__(self, rng, max_depth=3, p_constraint=0.35, allow=None, ext=False):
         self.rng = rng
         self.max_depth = max_depth
         self.p = p_constraint
         self.allow = allow
         self.counter = 0
+        # ext=True adds the extension field kinds (SizedString, IPV4, HostName, DateString, TimeString, JSONString as
+        # `string` declarations with "maxlen" / "fmt"; DecimalNumber as `number` with "dec") to what `decl` draws from;
+        # with ext=False (the default) every draw is exactly what it was before these kinds existed
+        self.ext = ext
 
     def coin(self, p=None):
         return self.rng.random() < (self.p if p is None else p)
@@ -114,15 +118,41 @@ class DeclGen:
     def hashable_decl(self, depth):
         """declaration whose values are hashable (set elements, map keys)"""
         rng = self.rng
-        k = rng.choice(["integer", "string", "enumCls", "float", "boolean", "enumLit", "tuple"])
+        k = rng.choice(["integer", "string", "enumCls", "float", "boolean", "enumLit", "tuple"] + (["xstring", "xstring"] if self.ext else []))
         if k == "tuple" and depth < self.max_depth:
             return {"k": "tuplePos", "items": [self.hashable_decl(depth + 1), self.hashable_decl(depth + 1)]}
         if k == "tuple":
             k = "integer"
         return self.scalar(k)
 
+    def xstring(self):
+        """an extension string field: SizedString / IPV4 / HostName / DateString / TimeString / JSONString"""
+        from . import formats
+        rng = self.rng
+        which = rng.choice(["sized", "sized", "ipv4", "hostname", "date", "time", "json"])
+        d = {"k": "string"}
+        if which == "sized":
+            d["maxlen"] = rng.choice([0, 1, 2, 3, 5])
+            if self.coin():
+                d["minLength"] = rng.choice([0, 1, 2])
+            if self.coin():
+                d["maxLength"] = rng.choice([1, 2, 3, 4, 6])
+            if self.coin(0.2):
+                d["pattern"] = rng.choice(PATTERNS)
+            return d
+        d["fmt"] = {"date": "date:" + rng.choice(formats.DATE_FORMATS)}.get(which, which)
+        if which != "time" and self.coin(0.25):
+            # the String keywords of the same field keep working next to the format
+            if self.coin(0.5):
+                d["minLength"] = rng.choice([1, 2, 7, 8])
+            else:
+                d["maxLength"] = rng.choice([2, 7, 8, 10, 11, 15])
+        return d
+
     def scalar(self, k):
         rng = self.rng
+        if k == "xstring":
+            return self.xstring()
         if k in ("integer", "number", "float"):
             return self.num_opts(k)
         if k == "string":
@@ -165,12 +195,14 @@ class DeclGen:
     def decl(self, depth=0):
         rng = self.rng
         kinds = list(SCALAR_KINDS)
+        if self.ext:
+            kinds += ["xstring"] * 3
         if depth < self.max_depth:
             kinds += CONTAINER_KINDS * 1
         if self.allow:
             kinds = [k for k in kinds if k in self.allow] or ["integer"]
         k = rng.choice(kinds)
-        if k in SCALAR_KINDS:
+        if k in SCALAR_KINDS or k == "xstring":
             return self.scalar(k)
         sub = lambda: self.decl(depth + 1)
         if k == "seqAny":
@@ -322,6 +354,10 @@ class ValGen:
                 if w is not None:
                     return w
             return NOVALUE
+        if k == "string" and d.get("fmt") is not None:
+            from . import formats
+            pool = [s for s in formats.pool(d["fmt"], "valid") if self.guess_str_ok(d, s)]
+            return rng.choice(pool) if pool else NOVALUE
         if k == "string":
             pool = [s for s in STRINGS + ["ac", "abc", "xa", "bz", "abz", "xz"] if self.guess_str_ok(d, s)]
             return rng.choice(pool) if pool else NOVALUE
@@ -449,6 +485,11 @@ class ValGen:
             return False
         if d.get("pattern") is not None and not re.compile(d["pattern"]).match(s):
             return False
+        if d.get("maxlen") is not None and len(s) > d["maxlen"]:
+            return False
+        if d.get("fmt") is not None:
+            from . import formats
+            return formats.ok(d["fmt"], s)
         return True
 
     def pick_len(self, d):
@@ -471,9 +512,14 @@ class ValGen:
                 if x.denominator == 1 and int(x) not in out:
                     out.append(int(x))
             return out
+        if k == "string" and d.get("fmt") is not None:
+            # every near-valid string of the format (trailing newline, non-ASCII digits, out-of-range components, empty
+            # labels ...), every valid one (length bounds cut through them), a few other Python types
+            from . import formats
+            return list(formats.pool(d["fmt"], "near")) + list(formats.pool(d["fmt"], "valid")) + [5, None, {"l": ["1.2.3.4"]}, True]
         if k == "string":
             lens = set()
-            for key in ("minLength", "maxLength"):
+            for key in ("minLength", "maxLength", "maxlen"):
                 if d.get(key) is not None:
                     lens |= {max(0, d[key] - 1), d[key], d[key] + 1}
             for n in sorted(lens):
@@ -729,6 +775,9 @@ def collect_patterns(d, acc):
     if isinstance(d, dict):
         if d.get("k") == "string" and d.get("pattern") is not None:
             acc.add(d["pattern"])
+        if d.get("k") == "string" and d.get("fmt") is not None:
+            from . import formats
+            acc.add(formats.token(d["fmt"]))
         for x in d.values():
             collect_patterns(x, acc)
     elif isinstance(d, list):
@@ -745,4 +794,6 @@ def re_table(decl, *values):
     for v in values:
         collect_strings(v, strs)
     collect_strings(decl, strs)  # defaults, enum literals
-    return [[p, s, re.compile(p).match(s) is not None] for p in sorted(pats) for s in sorted(strs)]
+    from . import formats
+    return [[p, s, (formats.ok(formats.fmt_of_token(p), s) if formats.is_token(p) else re.compile(p).match(s) is not None)]
+            for p in sorted(pats) for s in sorted(strs)]
